@@ -254,6 +254,36 @@ func runC10(p *Prog, l *Ledger) {
 		}
 	}
 
+	// ---------------- the condition's lock is an exclusive lock
+	// (O1 and O2 argue with "holding c.L excludes the other side"; a Locker that takes its mutex in shared mode excludes nobody)
+	for _, f := range p.Funcs {
+		if !p.InPkg(f, "limiter") {
+			continue
+		}
+		allInstrs(f, func(ins ssa.Instruction) {
+			call, ok := ins.(*ssa.Call)
+			if !ok {
+				return
+			}
+			c := p.CallOf(call)
+			if !c.Is("sync.NewCond") || len(c.Args) != 1 {
+				return
+			}
+			a := c.Args[0]
+			if mi, ok := a.(*ssa.MakeInterface); ok {
+				a = mi.X
+			}
+			excl := false
+			if pt, ok := a.Type().(*types.Pointer); ok {
+				if nt, ok := pt.Elem().(*types.Named); ok && nt.Obj().Pkg() != nil && nt.Obj().Pkg().Path() == "sync" && (nt.Obj().Name() == "Mutex" || nt.Obj().Name() == "RWMutex") {
+					excl = true
+				}
+			}
+			l.Check(excl, "O1", p.Key(f)+"/cond-lock-exclusive", p.At(ins), "the condition is built on a *sync.Mutex / *sync.RWMutex: Lock() on c.L excludes every other holder",
+				"the condition's Locker is not a plain mutex ("+valueString(a)+"): if it locks in shared mode (RWMutex.RLocker()), a signaller holding c.L does not exclude a waiter between its failed attempt and Wait - the wake-up is lost")
+		})
+	}
+
 	// ---------------- O2 / O3 at wrapping listeners
 	for _, nt := range p.Implementers(p.coreIface("Listener")) {
 		if !strings.HasPrefix(p.TypeKey(nt), "limiter.") || len(fieldsOfType(nt, lisNamed)) != 1 {
